@@ -36,24 +36,32 @@ def case_to_line(c):
     """id | kind | #labelsets { #pairs { k | v } } | #batches { #entries { fp | labelset | ts | err | msg | tsf | val } } | #items { item } | #order { fp } | out
     (decoded by decode_case in model/JsonStream.v)"""
     lsets, idx = [], {}
-    matrix = c["kind"] in ("matrix", "vector")      # the number texts are used by the matrix and vector writers only
+    matrix = c["kind"] in ("matrix", "vector") or c["kind"].startswith("prom")      # the number texts are used by these writers only
     f = [str(c["id"]), c["kind"]]
+    def intern(l):
+        key = json.dumps(l or [])
+        if key not in idx:
+            idx[key] = len(lsets)
+            lsets.append(l or [])
+        return idx[key]
+    intern([])
+    blbls = c.get("blbls") or []
+    for l in blbls:
+        intern(l)
     for b in c["batches"] or []:
-        for e in b:
-            key = json.dumps(e.get("lbls") or [])
-            if key not in idx:
-                idx[key] = len(lsets)
-                lsets.append(e.get("lbls") or [])
+        for e in b or []:
+            intern(e.get("lbls"))
     f.append(str(len(lsets)))
     for l in lsets:
         f.append(str(len(l)))
         for k, v in l:
             f += [esc(unhex(k)), esc(unhex(v))]
     f.append(str(len(c["batches"] or [])))
-    for b in c["batches"] or []:
-        f.append(str(len(b)))
-        for e in b:
-            f += [e["fp"], str(idx[json.dumps(e.get("lbls") or [])]), str(e["ts"]), str(e.get("err", 0)),
+    for bi, b in enumerate(c["batches"] or []):
+        f.append(str(intern(blbls[bi]) if bi < len(blbls) else 0))
+        f.append(str(len(b or [])))
+        for e in b or []:
+            f += [e["fp"], str(intern(e.get("lbls"))), str(e["ts"]), str(e.get("err", 0)),
                   esc(unhex(e["msg"])), esc(e.get("tsf", "") if matrix else ""), esc(e.get("valt", "") if matrix else "")]
     items = c.get("items") or []
     f.append(str(len(items)))
@@ -91,18 +99,18 @@ def eval_cases(ck, name, cases):
 
 
 def case_size(c):
-    return (sum(len(b) for b in c["batches"] or []) + len(c.get("items") or []), len(c["out"]))
+    return (sum(len(b or []) for b in c["batches"] or []) + len(c.get("items") or []), len(c["out"]))
 
 
 def strip_case(c):
     """the replayable part of a case (inputs only)"""
-    return {"id": c["id"], "kind": c["kind"], "class": c.get("class", ""), "items": c.get("items") or [],
-            "batches": [[{k: e.get(k) for k in ("fp", "lbls", "ts", "msg", "v", "err")} for e in b] for b in c["batches"] or []]}
+    return {"id": c["id"], "kind": c["kind"], "class": c.get("class", ""), "items": c.get("items") or [], "blbls": c.get("blbls") or [],
+            "batches": [[{k: e.get(k) for k in ("fp", "lbls", "ts", "msg", "v", "err")} for e in b or []] for b in c["batches"] or []]}
 
 
 def describe(c):
     return {"kind": c["kind"], "class": c.get("class"), "rows": [[{"fp": e["fp"], "labels": {unhex(k).decode("latin1"): unhex(v).decode("latin1") for k, v in e.get("lbls") or []},
-                                                                    "ts": e["ts"], "msg": unhex(e["msg"]).decode("latin1"), "err": e.get("err", 0)} for e in b] for b in c["batches"] or []],
+                                                                    "ts": e["ts"], "msg": unhex(e["msg"]).decode("latin1"), "err": e.get("err", 0)} for e in b or []] for b in c["batches"] or []],
             "items": [unhex(it).decode("latin1") for it in c.get("items") or []],
             "body": unhex(c["out"]).decode("latin1")}
 
@@ -169,7 +177,7 @@ def run_encoders(ck):
     unread_s = set(unread)
     disagree = [c["id"] for c in ok_cases if c["valid"] == (c["id"] in unread_s)]
     ck.obligation("the Coq JSON reader and encoding/json.Valid agree on every body", not disagree, "case ids: %s" % disagree[:10])
-    has_fail = lambda c: any(e.get("err") == 2 for b in c["batches"] or [] for e in b)
+    has_fail = lambda c: any(e.get("err") == 2 for b in c["batches"] or [] for e in b or [])
     godiff = [c["id"] for c in ok_cases if c["gorows"].startswith("diff") and not has_fail(c)]
     ck.obligation("encoding/json parse of every body equals the rows (UTF-8 inputs)", not godiff,
                   "case ids: %s %s" % (godiff[:10], [byid[i]["gorows"] for i in godiff[:3]]))
@@ -207,7 +215,7 @@ def run_encoders(ck):
     for c in cases:
         hist[c["class"]] = hist.get(c["class"], 0) + 1
         kinds[c["kind"]] = kinds.get(c["kind"], 0) + 1
-        rows = [e for b in c["batches"] or [] for e in b if e.get("err", 0) == 0]
+        rows = [e for b in c["batches"] or [] for e in b or [] if e.get("err", 0) == 0]
         fps = [e["fp"] for e in rows]
         nser = sum(1 for i, f in enumerate(fps) if i == 0 or fps[i - 1] != f)
         if (nser >= 2 and len(rows) >= 3 and len(c["batches"] or []) >= 2) or len(c.get("items") or []) >= 2:
